@@ -1,5 +1,6 @@
 import Hive.Model.Events
 import Hive.Model.EventsIter
+import Hive.Model.EventsRelink
 import Hive.Model.EventsPromise
 import Hive.Model.EventsNotifier
 import Hive.Model.EventsNotifierRace
@@ -9,16 +10,16 @@ open Hive
 /-- One sub-state per section; every case header resets all of them. -/
 structure DSt where
   ev : Events.St
-  it : EventsIter.LSt
+  it : EventsRelink.LSt
   pr : Promise.St
   vn : Notifier.St
 
-def dinit : DSt := { ev := Events.init, it := EventsIter.linit, pr := Promise.init, vn := Notifier.init }
+def dinit : DSt := { ev := Events.init, it := EventsRelink.linit, pr := Promise.init, vn := Notifier.init }
 
 def dstep (s : DSt) (toks : List String) : DSt × String :=
   match toks with
   | "ev" :: r => let (x, o) := Events.stepLine s.ev r; ({ s with ev := x }, o)
-  | "it" :: r => let (x, o) := EventsIter.stepLine s.it r; ({ s with it := x }, o)
+  | "it" :: r => let (x, o) := EventsRelink.stepLine s.it r; ({ s with it := x }, o)
   | "pr" :: r => let (x, o) := Promise.stepLine s.pr r; ({ s with pr := x }, o)
   | "vn" :: r => let (x, o) := Notifier.stepLine s.vn r; ({ s with vn := x }, o)
   | "vr" :: r => (s, NotifierRace.checkLine r)
@@ -26,6 +27,8 @@ def dstep (s : DSt) (toks : List String) : DSt × String :=
   | "pt" :: r => (s, EventsSpec.checkPT r)
   | "hw" :: r => (s, EventsSpec.checkHW r)
   | "hc" :: r => (s, EventsSpec.checkHC r)
+  | "lk" :: r => (s, EventsSpec.checkLK r)
+  | "lm" :: r => (s, EventsSpec.checkLM r)
   | "vc" :: _ => (s, "begun")   -- concurrent Listener creation: the round follows as `vn` lines
   | _ => (s, "bad-op")
 
